@@ -15,6 +15,8 @@ import (
 
 	cli "github.com/jawher/mow.cli"
 
+	"verif/core"
+
 	. "verif/refsem"
 )
 
@@ -478,6 +480,7 @@ func Run(a *App, argv []string) *Obs {
 	var setEnv []string
 	go func() {
 		defer close(done)
+		defer core.EnterLibrary()()
 		if !a.Shared {
 			cli.VerifSetStdErr(&buf)
 			cli.VerifSetStdOut(&obuf)
@@ -810,6 +813,7 @@ func (b *Built) Run(argv []string) *Obs {
 	var buf, obuf bytes.Buffer
 	go func() {
 		defer close(done)
+		defer core.EnterLibrary()()
 		if !b.a.Shared {
 			cli.VerifSetStdErr(&buf)
 			cli.VerifSetStdOut(&obuf)
